@@ -29,9 +29,18 @@ def ranges(p):
     return out
 
 
+def whole_files(p):
+    out = []
+    for f in p['anchors'].get('files', []):
+        path = os.path.join('/repo', f)
+        if os.path.exists(path) and f.endswith(('.cpp', '.hpp')):
+            out.append((f, 20, len(open(path).read().split('\n'))))
+    return out
+
+
 def mutants(pid):
     res = []
-    for (f, a, b) in ranges(props[pid]):
+    for (f, a, b) in (whole_files(props[pid]) if os.environ.get('WHOLE') else ranges(props[pid])):
         path = os.path.join('/repo', f)
         if not os.path.exists(path):
             continue
